@@ -103,6 +103,7 @@ def rust_ty(text):
     if t == "T": return ELEM
     if t == "E": return EXTW
     if t == "[T]": return SLICE
+    if t == "NonNull<[u8]>": return ("tuple", [NAT, NAT])
     if t in ("Drain<T>", "Drain<'a,'bump,T>"): return DRAIN
     if t == "IntoIter<'bump,T>": return ("tuple", [SLOT, SLOT])
     if t == "DrainFilter<'a,'bump,T,F>": return DFSTRUCT
@@ -265,6 +266,19 @@ FUNCS += [
 for _f in FUNCS:
     if _f.lean in ("drain_next", "drain_next_back", "intoiter_next", "intoiter_next_back"):
         _f.moves_out = False
+FUNCS += [
+    Fn("alloc_layout", "bump", "st", group="Glue"),
+    Fn("set_allocation_limit", "bump", "st", group="Glue"),
+    Fn("min_align", "bump", "read", group="Glue"),
+    Fn("alloc", "allocimpl", "st", group="Glue", anchor="alloc::Alloc for", lean="alloc_alloc"),
+    Fn("dealloc", "allocimpl", "st", group="Glue", anchor="alloc::Alloc for", lean="alloc_dealloc"),
+    Fn("realloc", "allocimpl", "st", group="Glue", anchor="alloc::Alloc for", lean="alloc_realloc"),
+    Fn("allocate", "allocatorimpl", "st", group="Glue", anchor="Allocator for &'a Bump", lean="allocator_allocate"),
+    Fn("deallocate", "allocatorimpl", "st", group="Glue", anchor="Allocator for &'a Bump", lean="allocator_deallocate"),
+    Fn("shrink", "allocatorimpl", "st", group="Glue", anchor="Allocator for &'a Bump", lean="allocator_shrink"),
+    Fn("grow", "allocatorimpl", "st", group="Glue", anchor="Allocator for &'a Bump", lean="allocator_grow"),
+    Fn("grow_zeroed", "allocatorimpl", "st", group="Glue", anchor="Allocator for &'a Bump", lean="allocator_grow_zeroed"),
+]
 FN = {f.name: f for f in FUNCS}
 FN_LEAN = {f.lean: f for f in FUNCS}
 # names that exist on several receivers: the table is per receiver kind
@@ -370,7 +384,7 @@ class Tr:
             self.lead, self.lead_names = ["(c : V.Cfg)", "(pred : Nat → V.Elem → Option Bool)"], ["c", "pred"]
         elif fn.kind in ("rawvec",) + VECK:
             self.lead, self.lead_names = ["(c : V.Cfg)"], ["c"]
-        elif fn.kind in ("bump", "chunk", "assocst", "iter"):
+        elif fn.kind in ("bump", "chunk", "assocst", "iter", "allocimpl", "allocatorimpl"):
             self.lead, self.lead_names = ["(E M : Nat)"], ["E", "M"]
         elif fn.kind == "assoc":
             self.lead, self.lead_names = ["(M : Nat)"], ["M"]
@@ -791,6 +805,8 @@ class Tr:
                 return f"(some {t})", (opt(ty) if n == "Some" else res(ty))
             if n == "Err" and len(pa) == 1:
                 return "none", res("?")
+            if segs[-1] in ("slice_from_raw_parts_mut", "slice_from_raw_parts") and len(pa) == 2 and pa[0][1] == NAT and pa[1][1] == NAT:
+                return f"({pa[0][0]}, {pa[1][0]})", ("tuple", [NAT, NAT])
             if segs[-1] == "arith_offset" and len(pa) == 2 and pa[0][1] == SLOT and pa[1][1] == NAT:
                 # byte-wise stepping of a pointer to a zero-sized type: one "byte" per element, the index moves
                 return (pa[1][0] if pa[0][0] == "0" else f"({pa[0][0]} + {pa[1][0]})"), SLOT
@@ -1298,6 +1314,9 @@ class Tr:
                 # writing a whole `ChunkFooter` value to an address: from here on that address *is* this footer
                 return self.check(f"{paren(pa[1][0])}.footer = {pa[0][0]}", "footer written at an address that is not the end of its chunk",
                                   k(pa[1][0], CHUNK, env_))
+            if len(segs) == 2 and segs[0] in ("Bump", "Bump<MIN_ALIGN>") and args and args[0] == ("path", ["self"]) and ("bump", n) in FN_BY_KIND \
+                    and self.fn.kind in ("allocimpl", "allocatorimpl"):
+                return self.call_fn(FN_BY_KIND[("bump", n)], None, pa[1:], env_, k)
             g = FN_BY_KIND.get(("free", n)) if len(segs) == 1 else ((FN_BY_KIND.get(("assoc", n)) or FN_BY_KIND.get(("assocst", n))) if segs[0] in ("Self", "Bump") else None)
             if g is not None:
                 return self.call_fn(g, None, pa, env_, k)
@@ -1313,7 +1332,7 @@ class Tr:
             lead = ["c", "pred"]
         elif g.kind in ("rawvec",) + VECK:
             lead = ["c"]
-        elif g.kind in ("bump", "chunk", "assocst", "iter"):
+        elif g.kind in ("bump", "chunk", "assocst", "iter", "allocimpl", "allocatorimpl"):
             lead = ["E", "M"]
         elif g.kind == "assoc":
             lead = ["M"]
@@ -1717,7 +1736,10 @@ class Tr:
                 return self.bind_call(f"RsM.liftV (Gen.Fn.{g.lean} c {sp(pa)})", "st", k, env_, rty)
             return self.args(args, env, kbuf)
         # methods on self (the arena)
-        if recv == ("path", ["self"]) and self.fn.kind == "bump":
+        if recv == ("path", ["self"]) and self.fn.kind == "allocatorimpl" and ("allocatorimpl", name) in FN_BY_KIND:
+            # `self : &&Bump`: the trait's own method is found before the inherent one of `Bump`
+            return self.args(args, env, lambda pa, env_: self.call_fn(FN_BY_KIND[("allocatorimpl", name)], None, pa, env_, k))
+        if recv == ("path", ["self"]) and self.fn.kind in ("bump", "allocimpl", "allocatorimpl"):
             if name in EXTERNAL:
                 # callers keep reaching the hand model of this function (its own translation is tied to the hand model
                 # by a separate equivalence theorem)
@@ -1725,6 +1747,12 @@ class Tr:
                 return self.args(args, env, lambda pa, env_: self.bind_call(f"{lf} E M {sp(pa)}", mode, k, env_, rty))
             if ("bump", name) in FN_BY_KIND:
                 return self.args(args, env, lambda pa, env_: self.call_fn(FN_BY_KIND[("bump", name)], None, pa, env_, k))
+        if name == "map_err" and len(args) == 1 and args[0][0] == "closure":
+            def kme(t, ty, env_):
+                if not (isinstance(ty, tuple) and ty[0] in ("opt", "res")):
+                    raise Untranslatable(f".map_err on {ty}")
+                return k(t, res(ty[1]), env_)
+            return self.E(recv, env, K(kme, k.trivial))
         if name in ("expect", "unwrap") and len(args) <= 1:
             def kx(t, ty, env_):
                 if not (isinstance(ty, tuple) and ty[0] in ("opt", "res")):
@@ -1964,6 +1992,21 @@ class Tr:
                     return self.bind_call(f"Gen.Fn.df_drop c {cbt} {d}.idx {d}.del {d}.oldLen {d}.calls {d}.panicFlag", "st", K(kr), e2,
                                           ("tuple", [UNIT, NAT]), nopanic=True)
                 return self.bind_call(f"Gen.Fn.vec_drain_filter c {cbt}", "st", K(kd), env_, DFSTRUCT, nopanic=True)
+            if st[0] == "expr" and st[1][0] == "mcall" and st[1][2] == "fill" and st[1][3] == [("int", 0)] and st[1][1][0] == "index" \
+                    and st[1][1][2][0] == "range" and st[1][1][2][2] is None:
+                base = st[1][1][1]
+                if base[0] == "mcall" and base[2] in ("as_mut", "as_ref") and not base[3]:
+                    base = base[1]
+                pb = self.pure(base, env_)
+                if pb is None or pb[1] != ("tuple", [NAT, NAT]):
+                    raise Untranslatable("fill on something that is not a byte slice")
+
+                def kz(lo, tyl, e2):
+                    return self.check(f"decide ({lo} ≤ {paren(pb[0])}.2)", "slice index", self.check(
+                        f"{paren(pb[0])}.1 + {lo} < USIZE", "pointer add wraps", self.bind_call(
+                            f"Rs.zero_fill ({paren(pb[0])}.1 + {lo}) ({paren(pb[0])}.2 - {lo})", "st", K(lambda t_, ty_, e3: go(i + 1, e3)), e2, UNIT, footers=False)),
+                        asserting=True)
+                return self.E(st[1][1][2][1], env_, K(kz))
             if st[0] == "expr":
                 ex = st[1]
                 if ex[0] == "call" and ex[1][0] == "path" and ex[1][1][-2:] == ["ptr", "write"] and len(ex[2]) == 2 \
@@ -2220,7 +2263,7 @@ def translate_all(repo):
 
 
 GROUP_IMPORTS = {"Arith": [], "Details": ["Arith"], "Bytes": ["Arith"], "Limit": ["Arith", "Bytes"], "Footer": ["Arith"], "Fast": ["Arith", "Footer"],
-                 "Realloc": ["Arith", "Fast", "Footer", "Limit"], "RawVec": [], "Vec": ["RawVec"], "VecDrain": ["RawVec", "Vec"], "VecIntoIter": ["RawVec", "Vec"], "VecFilter": ["RawVec", "Vec"], "Reset": ["Arith", "Footer"], "Rewind": ["Arith", "Footer", "Limit", "Fast", "Realloc"], "NewChunk": ["Arith"], "Iter": ["Arith", "Footer"], "Ctor": ["Arith", "Details", "NewChunk"], "Slow": ["Arith", "Details", "Bytes", "Limit", "Footer", "Fast", "NewChunk"]}
+                 "Realloc": ["Arith", "Fast", "Footer", "Limit"], "RawVec": [], "Vec": ["RawVec"], "VecDrain": ["RawVec", "Vec"], "VecIntoIter": ["RawVec", "Vec"], "VecFilter": ["RawVec", "Vec"], "Glue": ["Arith", "Fast", "Footer", "Limit", "Realloc"], "Reset": ["Arith", "Footer"], "Rewind": ["Arith", "Footer", "Limit", "Fast", "Realloc"], "NewChunk": ["Arith"], "Iter": ["Arith", "Footer"], "Ctor": ["Arith", "Details", "NewChunk"], "Slow": ["Arith", "Details", "Bytes", "Limit", "Footer", "Fast", "NewChunk"]}
 GROUP_PRELUDE = {"RawVec": "BumpVerif.Model.RsVec", "Vec": "BumpVerif.Model.RsVecM", "VecDrain": "BumpVerif.Model.RsVecM", "VecIntoIter": "BumpVerif.Model.RsVecM", "VecFilter": "BumpVerif.Model.RsVecM"}
 
 
